@@ -185,6 +185,26 @@ class Env:
                             lib.mk(Qb), self.gen.addr, 0)
         return (r, lib.rd(tok, n)), t
 
+    def key_wrap_shared(self, key, header, Qb, tape, where):
+        """the same call with key (and header) stored inside the token buffer (bign_keyt.c: 'buffers key, header and token
+        may overlap'): where = 'key@0' | 'key@no' | 'header@0'"""
+        lib, no = self.lib, self.no
+        t = self.gen.load(tape)
+        n = no + 16 + len(key)
+        tok = lib.alloc(n)
+        pk, ph = lib.mk(key), (0 if header is None else lib.mk(header))
+        if where == "key@0":
+            lib.wr(tok, key)
+            pk = tok
+        elif where == "key@no":
+            lib.wr(tok + no, key)
+            pk = tok + no
+        elif where == "header@0" and header is not None:
+            lib.wr(tok, header)
+            ph = tok
+        r = lib.bignKeyWrap(tok, self.pp(), pk, len(key), ph, lib.mk(Qb), self.gen.addr, 0)
+        return (r, lib.rd(tok, n)), t
+
     def key_unwrap(self, token, header, db):
         lib, no = self.lib, self.no
         n = max(0, len(token) - 16 - no)
@@ -855,6 +875,12 @@ def unit_tapes(ctx):
             det.update(d=hx(x["d"]), key=hx(x["key"]), header=hx(x["header"]))
             if not E.sampling_diag("bignKeyWrap", t, m, g, det):
                 E.compare("bignKeyWrap", "tape", m, g, det)
+            if g[0] == 0 and len(x["key"]) >= 16:
+                # the same tape with key / header laid inside the token buffer must give the same token
+                for where in ("key@0", "key@no", "header@0"):
+                    g2, _ = E.key_wrap_shared(x["key"], x["header"], Qb, tb, where)
+                    if g2 != g:
+                        E.compare("bignKeyWrap", "shared-buffer:" + where, g, g2, dict(det, placement=where))
             if g[0] == 0:
                 u = E.key_unwrap(g[1], x["header"], x["d"])
                 rv = (u[0],)
